@@ -5,6 +5,7 @@ go 1.21.6
 require (
 	github.com/evolbioinfo/goalign v0.3.7-0.20230906113011-fcecb09f9d43
 	github.com/evolbioinfo/gotree v0.0.0
+	github.com/fredericlemoine/gostats v0.1.1
 	github.com/spf13/cobra v1.5.0
 	github.com/spf13/pflag v1.0.5
 )
@@ -19,7 +20,6 @@ require (
 	github.com/flynn-archive/go-shlex v0.0.0-20150515145356-3f9db97f8568 // indirect
 	github.com/fredericlemoine/bitset v1.2.0 // indirect
 	github.com/fredericlemoine/cobrashell v0.0.0-20180921081141-49c72f93426c // indirect
-	github.com/fredericlemoine/gostats v0.1.1 // indirect
 	github.com/go-fonts/liberation v0.3.1 // indirect
 	github.com/go-latex/latex v0.0.0-20230307184459-12ec69307ad9 // indirect
 	github.com/go-pdf/fpdf v0.8.0 // indirect
